@@ -98,8 +98,8 @@ def default_state(ctx, db):
 
 
 def ptr_writers(ctx, db):
-    rid = ctx.rule('C17.state-pointer-writers', 'WHO+GUARDED', 'shared_future::_ptr is assigned only by constructors and by init_if_needed, and init_if_needed assigns only on the edge where it is null '
-                   '(replacing a live state would detach earlier copies); get_promise initialises by calling init_if_needed', floor=2)
+    rid = ctx.rule('C17.state-pointer-writers', 'WHO+GUARDED', 'shared_future::_ptr is assigned by constructors / assignment operators, and by any other member only on the edge where it tested null '
+                   '(lazy initialisation; replacing a live state would detach earlier copies); that get_promise cannot meet a null state is C17.default-state', floor=1)
 
     def pred(f, e):
         if norm(f.get('class') or '') != SF:
@@ -110,9 +110,16 @@ def ptr_writers(ctx, db):
             return True
         return False
     found = who(db, pred)
-    check_who(ctx, rid, found, {'cocls::shared_future::init_if_needed', 'cocls::shared_future::shared_future', 'cocls::shared_future::operator='}, 'assignment of shared_future::_ptr', db=db)
-    T = Tracer(db, depth=0)
-    for f in db.need('cocls::shared_future::init_if_needed')[:1]:
+    CTORS = {'cocls::shared_future::shared_future', 'cocls::shared_future::operator='}
+    T = htracer(db)
+    n = 0
+    for fname, lst in sorted(found.items()):
+        f = lst[0][0]
+        if fname in CTORS:
+            ctx.ob(rid, f, lst[0][1].get('loc') or f['key'], True, 'assignment of shared_future::_ptr in a constructor / assignment operator (a new object, or an explicit re-seat by the user)')
+            continue
+        # any other member: it may only install a state where there is none (replacing a live state would detach earlier copies)
+        n += 1
         bad = None
         for tr in T.traces(f):
             nn = None
@@ -121,12 +128,11 @@ def ptr_writers(ctx, db):
                     v = _ptr_fact(tr, i)
                     if v is not None:
                         nn = v
-                elif it.k == 'call' and it.get('recv') == PTR and norm(it.get('callee') or '').endswith('operator=') and nn is not False:
+                elif ((it.k == 'call' and it.get('recv') == PTR and norm(it.get('callee') or '').endswith(('operator=', '::reset', '::swap'))) or (it.k == 'write' and (it.get('path') or '') == PTR and not it.get('init'))) and nn is not False and it.get('fname') == f['nname']:
                     bad = tr
-        ctx.ob(rid, f, f['key'], bad is None, 'init_if_needed allocates only when _ptr is null', desc='init_if_needed replaces a live state', trace=fmt_trace(bad) if bad else None)
-    for f in db.need('cocls::shared_future::get_promise')[:1]:
-        n = sum(1 for e in f.events() if e.k == 'call' and norm(e.get('callee')) == 'cocls::shared_future::init_if_needed')
-        ctx.ob(rid, f, f['key'], n == 1, 'get_promise initialises through init_if_needed', desc='get_promise does not call init_if_needed')
+        ctx.ob(rid, f, f['key'], bad is None, '%s assigns _ptr only on the edge where it is null' % fname.split('::')[-1], desc='%s replaces a live state' % fname.split('::')[-1], trace=fmt_trace(bad) if bad else None)
+    if n == 0:
+        raise Broken('no lazy initialisation of shared_future::_ptr found: anchor changed')
 
 
 def charge(ctx, db):
@@ -181,7 +187,9 @@ def charge(ctx, db):
 def tracer_first(ctx, db):
     rid = ctx.rule('C17.tracer-first', 'COUNT', 'every constructor of shared_future that can leave the future pending, and get_promise, charge the tracer exactly once before returning the object '
                    'to the caller (on the pending edge when the state may already be resolved)', floor=3)
-    T = Tracer(db, depth=0)
+    # helpers of the class, but not the charge itself (the anchor)
+    T = htracer(db, extra=None)
+    T.inline_filter = (lambda flt: (lambda c, e, callee: callee['nname'] != 'cocls::shared_future::resolve_cb::charge' and norm(callee.get('class') or '') == SF and flt(c, e, callee)))(T.inline_filter)
     seen = set()
     for name in ('cocls::shared_future::shared_future', 'cocls::shared_future::get_promise'):
         for f in db.fns(name):
